@@ -7,7 +7,7 @@ IDS="$*"
 mkdir -p /tmp/run_all
 for id in $IDS; do
   s=$(date +%s)
-  ./check $id $TIER > /tmp/run_all/$TIER.$id.log 2>&1; rc=$?
+  timeout ${CAP:-36000} ./check $id $TIER > /tmp/run_all/$TIER.$id.log 2>&1; rc=$?
   e=$(date +%s)
   echo "$id exit=$rc $((e-s))s $(grep -c '^VIOLATION' /tmp/run_all/$TIER.$id.log) violations; $(grep '^RESULT' /tmp/run_all/$TIER.$id.log | cut -c1-160)"
 done
